@@ -529,6 +529,8 @@ def _gen_case(rng, quick):
     norms, ediffs = _ref_traj(H_, j_, x0_, max(1, n - 2), nord)
     # stopping configuration: thresholds between consecutive trajectory values
     mode = rng.choice(["resnorm", "absdelta", "both", "tol", "atol", "default"])
+    if case.get("norm_ord") is not None and rng.random() < 0.6:
+        mode = "tol"          # the fallback resnorm = max(tol*norm(j, ord), atol) is where the order of the norm of j matters
     k = rng.randrange(len(norms)) if norms else 0
     if norms and mode in ("resnorm", "both"):
         lo, hi = norms[k], (norms[k - 1] if k > 0 else norms[k] * 4)
@@ -540,7 +542,10 @@ def _gen_case(rng, quick):
     jn = float(np.linalg.norm(np.array(j_, dtype=float), ord=nord)) or 1.0
     if norms and mode == "tol":
         lo, hi = norms[k], (norms[k - 1] if k > 0 else norms[k] * 4)
-        case["tol"] = rs(math.sqrt(lo * hi) / jn) if lo > 0 else rs(1e-3)
+        thr = math.sqrt(lo * hi)
+        if lo > 0 and rng.random() < 0.6:
+            thr = min(lo * 1.15, thr)       # just above the k-th residual norm: a modest change of the bound moves the stop
+        case["tol"] = rs(thr / jn) if lo > 0 else rs(1e-3)
     if norms and mode == "atol":
         lo, hi = norms[k], (norms[k - 1] if k > 0 else norms[k] * 4)
         case["atol"] = rs(math.sqrt(lo * hi)) if lo > 0 else rs(1e-3)
